@@ -47,6 +47,10 @@ pub enum Mw {
     /// ... and that nested request carries per-request middleware of its own (a marker)
     IssuerMarked(u8, u8),
     Redirect(u8),
+    /// hands the request it was given to the client it was given (`client.send(req)`) instead of to the
+    /// rest of the chain: that client carries no middleware and the request has given up its own, so this
+    /// goes straight to the shell, once, and the rest of the chain is not run
+    Resend(u8),
 }
 
 #[derive(Clone, Debug, PartialEq, Eq, Serialize, Deserialize)]
@@ -119,6 +123,15 @@ struct Marker(u32, u8);
 struct ShortCircuit(u32, u16);
 struct Issuer(u32, u8);
 struct IssuerMarked(u32, u8, u8);
+struct Resend(u32, u8);
+
+#[async_trait::async_trait]
+impl Middleware for Resend {
+    async fn handle(&self, req: crux_http::Request, client: Client, _next: Next<'_>) -> crux_http::Result<ResponseAsync> {
+        mark(self.0, format!("resend {}", self.1));
+        client.send(req).await
+    }
+}
 
 #[async_trait::async_trait]
 impl Middleware for Marker {
@@ -195,6 +208,7 @@ macro_rules! with_mw {
                 Mw::Issuer(t) => b.middleware(Issuer($id, *t)),
                 Mw::IssuerMarked(t, k) => b.middleware(IssuerMarked($id, *t, *k)),
                 Mw::Redirect(n) => b.middleware(Redirect::new(*n)),
+                Mw::Resend(k) => b.middleware(Resend($id, *k)),
             };
         }
         b
@@ -210,6 +224,7 @@ fn http_with_client_mw(http: &crux_http::Http<HEvent>, id: u32, mws: &[Mw]) -> c
             Mw::Issuer(t) => h.verif_with_client_middleware(Issuer(id, *t)),
             Mw::IssuerMarked(t, k) => h.verif_with_client_middleware(IssuerMarked(id, *t, *k)),
             Mw::Redirect(n) => h.verif_with_client_middleware(Redirect::new(*n)),
+            Mw::Resend(k) => h.verif_with_client_middleware(Resend(id, *k)),
         };
     }
     h
@@ -1119,6 +1134,12 @@ fn eval(stack: &[Mw], graph: &[Node], url: &str, post: bool, body_len: usize, id
             r.marks.push(format!("short {s}"));
             Some(*s)
         }
+        Mw::Resend(k) => {
+            r.marks.push(format!("resend {k}"));
+            r.seen.push(Seen { url: url.to_string(), post, body_len });
+            let op = HttpRequest { method: String::new(), url: url.to_string(), headers: vec![], body: vec![0; body_len] };
+            Some(serve(graph, &op).status)
+        }
         Mw::Issuer(t) => {
             r.marks.push(format!("issue {t}"));
             r.seen.push(Seen { url: format!("https://sim.test/extra/{t}?id={id}"), post: false, body_len: 0 });
@@ -1227,6 +1248,7 @@ impl Check for Http16 {
                     4 => Mw::ShortCircuit(*rng.pick(&[200, 404, 302])),
                     5 => Mw::Issuer(rng.below(9) as u8),
                     6 => Mw::IssuerMarked(rng.below(9) as u8, 10 + rng.below(9) as u8),
+                    7 if rng.chance(1, 2) => Mw::Resend(rng.below(9) as u8),
                     _ => Mw::Redirect(rng.range(0, 6) as u8),
                 })
                 .collect()
@@ -1317,7 +1339,7 @@ impl Check for Http16 {
             }
             let ctx = format!("request {} via {:?}, stack {:?}, start {}", spec.id, spec.api, stack, spec.url);
             // the bound holds even where the statement is silent
-            let bound: usize = stack.iter().map(|m| match m { Mw::Redirect(n) => *n as usize + 1, Mw::Issuer(_) | Mw::IssuerMarked(..) => 1, _ => 0 }).sum::<usize>() + 1;
+            let bound: usize = stack.iter().map(|m| match m { Mw::Redirect(n) => *n as usize + 1, Mw::Issuer(_) | Mw::IssuerMarked(..) | Mw::Resend(_) => 1, _ => 0 }).sum::<usize>() + 1;
             if real_seen.len() > bound {
                 return Err(viol("C16", "round_trip_bound", format!("{ctx}: {} shell round trips, at most {bound} allowed", real_seen.len())));
             }
